@@ -14,7 +14,9 @@ CfgPing == [poll |-> 5, ping_rate |-> 5, ping_timeout |-> 0, close_timeout |-> 0
 Euro1 == <<226, 130>>     \* first two bytes of U+20AC
 Euro2 == <<172>>          \* its last byte
 C01Data == { F(op, fin, pl) : op \in {0, 1, 2}, fin \in {0, 1}, pl \in {<<>>, <<97>>, Euro1, Euro2} }
-C01Ctl  == { F(9, 1, <<>>), F(9, 1, <<1>>), F(10, 1, <<2>>), F(8, 1, <<3, 232, 114>>), F(8, 1, <<>>) }
+\* (Bom: a text that starts with U+FEFF - it is a character like any other, not a signature to be stripped)
+Bom == <<239, 187, 191, 97>>
+C01Ctl  == { F(9, 1, <<>>), F(9, 1, <<1>>), F(10, 1, <<2>>), F(8, 1, <<3, 232, 114>>), F(8, 1, <<>>), F(1, 1, Bom) }
 C01Items == C01Data \cup C01Ctl
 C01ItemsSmall == { F(op, fin, pl) : op \in {0, 1, 2}, fin \in {0, 1}, pl \in {<<>>, <<97>>} } \cup { F(9, 1, <<1>>), F(8, 1, <<3, 232>>) }
 
@@ -38,7 +40,7 @@ C04CloseItems == { F(1, 1, <<97>>), F(8, 1, <<3, 232>>), F(8, 1, <<3, 237>>), F(
                    F(8, 1, <<0, 0>>), F(3, 1, <<>>), F(9, 0, <<>>), F(0, 1, <<1>>), F(1, 1, <<255>>) }
 
 \* ---- C05: text fragments with split multi-byte characters, invalid bytes, empty fragments, a Ping between ------
-C05Items == { F(1, 0, Euro1), F(0, 1, Euro2), F(0, 0, <<255>>), F(0, 0, <<172, 97>>), F(1, 1, <<97>>), F(1, 0, <<>>), F(0, 1, <<>>),
+C05Items == { F(1, 1, Bom), F(1, 0, Euro1), F(0, 1, Euro2), F(0, 0, <<255>>), F(0, 0, <<172, 97>>), F(1, 1, <<97>>), F(1, 0, <<>>), F(0, 1, <<>>),
               F(9, 1, <<>>), F(1, 1, <<237, 160, 128>>), F(8, 1, <<3, 232, 255>>), F(8, 1, <<3, 232, 226, 130, 172>>) }
 
 C04FragItems == { F(2, 0, <<1>>), F(1, 0, <<97>>), F(0, 1, <<2>>), F(0, 0, <<>>), F(9, 1, <<7>>), F(10, 1, <<>>), F(1, 1, <<98>>), F(2, 1, <<>>) }
